@@ -140,8 +140,8 @@ Fixpoint set_nth {A} (n : nat) (x : A) (l : list A) : list A :=
   | y :: t, S k => y :: set_nth k x t
   end.
 
-(* deposit_result; None = `self.result[slot_id] = ...` raises IndexError (after num_results
-   and fresh_results were already updated: the partially updated box is returned too) *)
+(* deposit_result: fresh_results, then the value, then num_results (counted last).  false =
+   `self.result[slot_id] = ...` raised IndexError: fresh_results is already updated, the count is not *)
 Definition deposit (b : mailbox) (slot : nat) (v : val) : mailbox * bool :=
   let fresh := match b_fresh b with None => [] | Some l => l end ++ [(slot, v)] in
   if b_single b then
@@ -149,7 +149,7 @@ Definition deposit (b : mailbox) (slot : nat) (v : val) : mailbox * bool :=
   else if Nat.ltb slot (length (b_result b)) then
     (mkBox false (b_expected b) (set_nth slot (Some v) (b_result b)) (S (b_num b)) (b_dest b) (Some fresh) (b_expect b) (b_got b ++ [slot]), true)
   else
-    (mkBox false (b_expected b) (b_result b) (S (b_num b)) (b_dest b) (Some fresh) (b_expect b) (b_got b ++ [slot]), false).
+    (mkBox false (b_expected b) (b_result b) (b_num b) (b_dest b) (Some fresh) (b_expect b) (b_got b), false).
 
 (* ---- dict helpers -------------------------------------------------------- *)
 Fixpoint box_get (m : nat) (bs : list (nat * mailbox)) : option mailbox :=
@@ -443,20 +443,19 @@ Definition aw2 (w : wstate) (a : addr) (m : nat) : wstate :=
 Fixpoint cancel_msgs (w : dest) (m : nat) (i n : nat) : list msg :=
   match n with 0 => [] | S k => MCancel (mkAddr w m i) :: cancel_msgs w m (S i) k end.
 
-(* `for mailbox_id in self._active_task.owned_mailboxes:` — cancel() removes the current
-   element from the list being iterated, so the following element is skipped *)
-Fixpoint close_boxes (owned : list nat) (skip : bool) (w : wstate) : wstate * bool :=
+(* `for mailbox_id in list(self._active_task.owned_mailboxes):` (a copy: cancel() removes from the
+   original list) — ready mailboxes are dropped, the others are cancelled *)
+Fixpoint close_boxes (owned : list nat) (w : wstate) : wstate * bool :=
   match owned with
   | [] => (w, true)
   | m :: r =>
-    if skip then close_boxes r false w
-    else match box_get m (w_boxes w) with
+    match box_get m (w_boxes w) with
     | Some b =>
-      if b_ready b then close_boxes r false (set_boxes w (box_del m (w_boxes w)))
+      if b_ready b then close_boxes r (set_boxes w (box_del m (w_boxes w)))
       else
         let w1 := set_oos (set_boxes w (box_del m (w_boxes w))) true in
         let w2 := set_out w1 (w_out w1 ++ cancel_msgs (me w) m 0 (b_expected b)) in
-        close_boxes r true w2
+        close_boxes r w2
     | None => (log_err w EKeyBox, false)          (* cancel(): self._mailboxes[id] KeyError *)
     end
   end.
@@ -470,7 +469,7 @@ Definition complete (w : wstate) (t : task) (v : val) : wstate * bool :=
     else (send w (MResult a v (w_id w)), true) in
   if negb ok then (w1, false) else
   let w2 := set_finished (set_tasks w1 (task_del a (w_tasks w1))) (w_finished w1 ++ [(a, v)]) in
-  close_boxes (t_owned t) false w2.
+  close_boxes (t_owned t) w2.
 
 Definition fatal (w : wstate) : wstate := set_pc (send w MFatal) PDead.
 
